@@ -16,6 +16,7 @@ from __future__ import annotations
 
 import io
 import contextlib
+import os
 import sys
 import warnings
 from typing import Any, Dict, List, Optional, Tuple
@@ -385,6 +386,8 @@ def chunks(tier: str, seed: int, n: int) -> List[Dict[str, Any]]:
     from vlib.bc import progs
 
     allp = list(progs.corpus(tier, seed))
+    stride = int(os.environ.get("VERIF_CORPUS_STRIDE", "1") or 1)
+    allp = allp[seed % stride::stride]
     out = [{"name": f"chunk{k}", "programs": allp[k::n]} for k in range(n)]
     return [c for c in out if c["programs"]]
 
@@ -418,7 +421,9 @@ def run(rep: Any, tier: str, seed: int) -> None:
 
     jobs: List[Tuple[str, Any]] = []
     # lemma sizes: (entries, max varint bytes per field, cross-check unsat answers with cvc5)
-    if tier == "quick":
+    if os.environ.get("VERIF_LEG"):
+        sizes = {"L1": [(1, 2, False)], "L2": [(1, 2, False)]}  # same source on both interpreters: token lemma run only
+    elif tier == "quick":
         sizes = {"L1": [(1, 2, False), (2, 2, False)], "L2": [(1, 2, False), (2, 2, False)]}
     else:
         sizes = {"L1": [(1, 3, True), (2, 3, False), (3, 1, False)], "L2": [(1, 3, True), (2, 2, True), (3, 1, False)]}
